@@ -423,5 +423,6 @@ mod verif_tree_kani {
     // MEASURED, out of reach: has_side_effects / if_expression_has_side_effects -- a harness over
     // 8 ENUMERATED if-expressions (conditions and results over {true, false, call}) does not finish
     // in 400 s (mutual recursion has_side_effects <-> evaluate over the large Expression enum).
-    // evaluate_if alone on 9 enumerated shapes: > 300 s as well.  Not covered; stated in the evidence.
+    // evaluate_if alone on 9 enumerated shapes: > 300 s as well; has_side_effects on the single
+    // shape `a <op> b` (two identifiers, op symbolic): > 300 s.  Not covered; stated in the evidence.
 }
